@@ -1141,7 +1141,7 @@ HARNESSES = {
     },
     "db_sql": {
         "fn": db_sql,
-        "quick": [{"fixed": {"hs": h}, "timeout": 500} for h in range(5)],
+        "quick": [{"fixed": {"hs": h, "from_b": b}, "timeout": 500} for h in range(5) for b in (False, True)],
         "thorough": [{"fixed": {"hs": h}, "timeout": 900} for h in range(5)],
         "cover": ["open", "not_open", "healthy", "deleted", "encrypted", "read_compromised", "unknown_query"],
         "bounds": "inductive step on a RUNNING service / ON node: 5 software-health states x 7 file states (6 health "
@@ -1176,7 +1176,8 @@ HARNESSES = {
     "db_session": {
         "fn": db_session,
         "quick": [{"fixed": {"n_ops": 2, "grp": g, "ngrp": 6}, "timeout": 400} for g in range(6)],
-        "thorough": [{"fixed": {"n_ops": 3, "op0": o}, "timeout": 1500} for o in range(len(OPS))]
+        # first operations 12 (raw_closed_id) and 29 (acl_unblock) are infeasible from the warm start: left out
+        "thorough": [{"fixed": {"n_ops": 3, "op0": o}, "timeout": 1500} for o in range(len(OPS)) if o not in (12, 29)]
         + [{"fixed": {"n_ops": 3, "op0": o, "dur": 1}, "timeout": 1500} for o in (23, 25)]
         + [{"fixed": {"n_ops": 4, "op0": a, "op1": b}, "timeout": 1500} for a, b in _S4_PREFIXES],
         "cover": [
